@@ -204,7 +204,27 @@ def full_client_deviation(rng: random.Random) -> dict:
         scn["expect_error"] = REQ
     elif dev == "bad_psk":
         raw = bytes(rng.getrandbits(8) for _ in range(32))
-        client["noise_psk"] = pick(rng, [base64.b64encode(raw[:31]).decode(), base64.b64encode(raw + b"x").decode(), "not base64 !!", base64.b64encode(raw).decode()[:-2], "QUJD", base64.b64encode(raw[:16]).decode(), "*" * 44])
+        good = base64.b64encode(raw).decode()
+        k = rng.randrange(len(good))
+        uni = pick(rng, ["\u00e9", "\uff1d", "\u2013", "\u00a0", "\u201c", "\u2215"])
+        client["noise_psk"] = pick(
+            rng,
+            [
+                base64.b64encode(raw[:31]).decode(),
+                base64.b64encode(raw + b"x").decode(),
+                "not base64 !!",
+                good[:-2],
+                "QUJD",
+                base64.b64encode(raw[:16]).decode(),
+                "*" * 44,
+                # non-ASCII characters can never be base64 (typographic quote, full-width '=', en dash, nbsp ...)
+                good[:k] + uni + good[k + 1 :],
+                good + uni,
+                uni + good,
+                base64.b64encode(raw + raw).decode(),
+                base64.b64encode(b"").decode() + "=",
+            ],
+        )
         scn["expect_error"] = KEY
         scn["nothing_written"] = True
     scn.update(
